@@ -335,6 +335,17 @@ def run_case(case):
                 hist.append(nm + "!")
                 continue
             counters["solves"] += 1
+            # what a solve hands back belongs to the caller: keep private copies for the comparisons and overwrite the returned arrays
+            # (a memo that hands out its own arrays would return the overwritten values next time)
+            c_ret, f_ret = c, f
+            c, f = np.array(c_ret, copy=True), np.array(f_ret, copy=True)
+            for a_ in (c_ret, f_ret):
+                try:
+                    if a_.flags.writeable:
+                        a_[...] = np.nan
+                        counters["result_arrays_poisoned_after_use"] = counters.get("result_arrays_poisoned_after_use", 0) + 1
+                except Exception:
+                    pass
             k = rc.NUM_THREADS
             if k > 1 and not R[nm].get("analytic"):
                 # was the multi-thread kernel really a threaded one?  (numba.threading_layer() raises until a threaded kernel has run)
@@ -367,7 +378,7 @@ def run_case(case):
                     e = max(np.max(np.abs(c - c2)) / (np.max(np.abs(c2)) or 1), np.max(np.abs(f - f2)) / (np.max(np.abs(f2)) or 1))
                     if prec == "double":
                         resid["across_threads_double"] = max(resid["across_threads_double"], float(e))
-                    if e > tolr:
+                    if not e <= tolr:
                         viol.append(dict(what="result_depends_on_thread_setting", other_threads=k2, rel=float(e), **ctx))
             anyres.setdefault(nm, {})[k] = (c, f)
             # (2b) against the fresh-process table
@@ -379,7 +390,7 @@ def run_case(case):
                 e = max(np.max(np.abs(c - ct)) / (np.max(np.abs(ct)) or 1), np.max(np.abs(f - ft)) / (np.max(np.abs(ft)) or 1))
                 key = "vs_fresh_double" if prec == "double" else "vs_fresh_single"
                 resid[key] = max(resid[key], float(e))
-                if e > tolr:
+                if not e <= tolr:
                     viol.append(dict(what="result_depends_on_history", rel=float(e), **ctx))
             # (2b') the same request solved in a fresh process with another environment
             if nm + "@envB" in _table and c.shape == _table[nm + "@envB"][0].shape:
@@ -403,7 +414,7 @@ def run_case(case):
                 counters["precision_pair_comparisons"] += 1
                 e = max(np.max(np.abs(c - cd)) / (np.max(np.abs(cd)) or 1), np.max(np.abs(f - fd)) / (np.max(np.abs(fd)) or 1))
                 resid["single_vs_double"] = max(resid["single_vs_double"], float(e))
-                if e > 1e-5:
+                if not e <= 1e-5:
                     viol.append(dict(what="single_precision_differs_beyond_storage_rounding", rel=float(e), **ctx))
             hist.append(nm)
             last = nm
